@@ -449,13 +449,21 @@ def r8_overlap_heights_used(idx, r):
         if not m.name.startswith("armi.") or ".tests" in m.name:
             continue
         for f in m.all_funcs():
-            for lp in [x for x in walk_local(f.node) if isinstance(x, ast.For) and isinstance(x.iter, ast.Call) and call_attr(x.iter) == "getBlocksBetweenElevations"]:
+            bound = {t.id for x in walk_local(f.node) if isinstance(x, ast.Assign) and isinstance(x.value, ast.Call) and call_attr(x.value) == "getBlocksBetweenElevations" for t in x.targets if isinstance(t, ast.Name)}
+            for lp in [x for x in walk_local(f.node) if isinstance(x, ast.For) and ((isinstance(x.iter, ast.Call) and call_attr(x.iter) == "getBlocksBetweenElevations") or (isinstance(x.iter, ast.Name) and x.iter.id in bound))]:
                 if not (isinstance(lp.target, ast.Tuple) and len(lp.target.elts) == 2 and isinstance(lp.target.elts[1], ast.Name)):
                     continue
                 n += 1
                 hv = lp.target.elts[1].id
                 used = any(isinstance(x, ast.Name) and x.id == hv and isinstance(x.ctx, ast.Load) for st_ in lp.body for x in ast.walk(st_))
                 accum = any(isinstance(x, ast.AugAssign) for st_ in lp.body for x in ast.walk(st_))
+                bv = norm(lp.target.elts[0])
+                for dv in [x for st_ in lp.body for x in ast.walk(st_) if isinstance(x, ast.BinOp) and isinstance(x.op, ast.Div)]:
+                    left = norm(dv.left)
+                    if any(isinstance(y, ast.Name) and y.id == hv for y in ast.walk(dv.left)) and (f"{bv}.getVolume()" in left or f"{bv}.getMass(" in left):
+                        r.require(norm(dv.right) == f"{bv}.getHeight()", f"{f.qualname}:share-of-a-block-is-overlap-over-its-own-height", f, node=dv,
+                                  msg=f"`{norm(dv)[:80]}`: the part of block `{bv}` inside the window is its overlap height over ITS OWN height; any other denominator (the window height) only agrees "
+                                      "when the window coincides with the block, and volume and atoms are not conserved otherwise")
                 r.require(used or not accum, f"{f.qualname}:overlap-height-used", f, node=lp,
                           msg=f"the loop over getBlocksBetweenElevations accumulates a quantity but never uses the overlap height `{hv}`: blocks that only partly lie inside the axial window are "
                               "counted in full, so the ring volume (and every density homogenised over it) is wrong whenever block boundaries do not coincide with the window")
@@ -544,6 +552,17 @@ def r10_direction_every_value_every_overlap(idx, r):
               msg="the loop over the blocks returns from inside: the slivers of the neighbouring blocks that also overlap the window are dropped and the overlaps no longer sum to the window")
 
 
+def r12_densities_and_volumes_under_a_remesh(idx, r):
+    """Two clauses of C02's rules that conservation under re-meshing rests on: (a) ArmiObject.setNumberDensities spreads EVERY nuclide of the
+    vector it is given over the children - also one that no child holds yet (a new mesh cell that straddles a UZr and a B4C block receives
+    boron from the second) (R02.3); (b) Block.setHeight invalidates the cached volumes whether or not the block sits in an assembly - the
+    detached pieces that Assembly.adjustResolution cuts are exactly that case (R02.6)."""
+    from ..report import Only
+    from .c02 import r3_setters, r6_unconditional_invalidation
+    r3_setters(idx, Only(r, ["ArmiObject.setNumberDensities"]))
+    r6_unconditional_invalidation(idx, Only(r, ["Block.setHeight"]))
+
+
 def r11_pairing(idx, r):
     from ..pairing import pairing_rule
     pairing_rule(idx, r, ["armi.reactor.converters.uniformMesh", "armi.reactor.converters.meshConverters", "armi.reactor.assemblies"], 60)
@@ -580,3 +599,5 @@ def run(idx, chk):
                  necessary="integral quantities are conserved in both directions and averaged quantities are the overlap-weighted means")
     chk.run_rule("R11.11", "arguments stand at the parameter they are named after; sibling calls forward the same pass-through parameters", lambda r: r11_pairing(idx, r), floor=1,
                  necessary="source and destination are not exchanged")
+    chk.run_rule("R11.12", "setNumberDensities keeps every nuclide it is given (R02.3); setHeight always invalidates the volume cache (R02.6)", lambda r: r12_densities_and_volumes_under_a_remesh(idx, r), floor=2,
+                 necessary="atoms of every nuclide and the volume are conserved when the mesh changes")
